@@ -18,6 +18,7 @@ RULE = (
     "(raw/comment/doc/if have four); text classes: empty, spaces, newlines, tabs, padded words, markup-like fragments that cannot open "
     "markup. One markup: exhaustive; two markups: exhaustive over kinds x flags with sampled texts (thorough: all); three: sampled. "
     "Non-trivial = at least one hyphen present or a raw/comment/doc body, distinct by source."
+    " Rounds 5-6 added enumerated families: unclosed comment openers as text; markup tokens of 0.5-40 KB of every kind."
 )
 REQUIRED = [
     ("liquid/lex.py", "_tokenize_template"),
